@@ -1834,11 +1834,18 @@ impl SctpInner {
 
     async fn handle_cookie_ack(&self, _chunk: Bytes) -> Result<()> {
         self.t1_cancel();
-        *self.state.lock() = SctpState::Connected;
-        self.advanced_peer_ack_tsn.store(
-            self.next_tsn.load(Ordering::SeqCst).wrapping_sub(1),
-            Ordering::SeqCst,
-        );
+        // Only the COOKIE-ACK that establishes the association initialises the PR-SCTP
+        // ack point. A duplicated copy arriving after DATA has been sent would move it
+        // past chunks the peer has not acknowledged, and the next FORWARD-TSN would
+        // skip them - reliable ones included.
+        let established_now =
+            std::mem::replace(&mut *self.state.lock(), SctpState::Connected) != SctpState::Connected;
+        if established_now {
+            self.advanced_peer_ack_tsn.store(
+                self.next_tsn.load(Ordering::SeqCst).wrapping_sub(1),
+                Ordering::SeqCst,
+            );
+        }
 
         let channels_to_process = {
             let mut channels = self.data_channels.lock();
@@ -2257,11 +2264,17 @@ impl SctpInner {
         let tag = self.remote_verification_tag.load(Ordering::SeqCst);
         self.send_chunk(CT_COOKIE_ACK, 0, Bytes::new(), tag).await?;
 
-        *self.state.lock() = SctpState::Connected;
-        self.advanced_peer_ack_tsn.store(
-            self.next_tsn.load(Ordering::SeqCst).wrapping_sub(1),
-            Ordering::SeqCst,
-        );
+        // As in handle_cookie_ack: a retransmitted COOKIE-ECHO (its COOKIE-ACK was lost)
+        // is answered again but must not touch the PR-SCTP ack point of the
+        // association that is already up.
+        let established_now =
+            std::mem::replace(&mut *self.state.lock(), SctpState::Connected) != SctpState::Connected;
+        if established_now {
+            self.advanced_peer_ack_tsn.store(
+                self.next_tsn.load(Ordering::SeqCst).wrapping_sub(1),
+                Ordering::SeqCst,
+            );
+        }
 
         let channels_to_process = {
             let mut channels = self.data_channels.lock();
